@@ -133,6 +133,11 @@ def run_weak(chk, spec):
 		"promoted-int-abs": lambda: (lambda d: (d.__setitem__(0, 3 + 4j), abs(d))[1])(Vector([1] * max(n, 1))),
 		"promoted-int-neg": lambda: (lambda d: (d.__setitem__(0, 2.5), -d)[1])(Vector([1] * max(n, 1))),
 		"promoted-int-invert-free": lambda: (lambda d: (d.__setitem__(0, 2.5), +d)[1])(Vector([1] * max(n, 1))),
+		"lshift-operand-widened-by-inference": lambda: Vector([1, None]) << Vector([2, 3.5]),
+		"lshift-operand-bool-then-int": lambda: Vector([True, None]) << Vector([False, 5]),
+		"lshift-operand-date-then-datetime": lambda: Vector([date(2020, 1, 1), None]) << Vector([date(2020, 1, 2), datetime(2020, 1, 2, 5)]),
+		"lshift-nullable-operand": lambda: Vector([1, 2]) << Vector([3, None, 2.5]),
+		"table-lshift-table-widened": lambda: Table({"a": [1, None]}) << Table({"a": [2, 3.5]}),
 		"huge-int-in-float": lambda: Vector([10 ** 400, 1.5, None][:max(2, min(n, 3))]),
 		"huge-int-into-float": lambda: (lambda d: (d.__setitem__(0, 10 ** 400), d)[1])(Vector([1.5, 2.5])),
 		"huge-int-in-complex": lambda: Vector([10 ** 400, 1j]),
@@ -329,7 +334,7 @@ RUNNERS = {"rows": run_rows, "unusual": run_unusual, "weak": run_weak, "assign":
 
 WEAK_OPS = ["radd-scalar", "radd-list", "rsub-scalar", "rmul-scalar", "rtruediv", "rpow", "add-wider-scalar", "add-wider-vector", "neg", "pos", "abs", "invert",
 	"lshift-wider", "lshift-none", "lshift-str", "lshift-list-mixed", "lshift-vector", "rlshift", "cast-str", "cast-float", "cast-int", "cast-bool", "cast-callable", "cast-date-from-iso", "cast-datetime-from-iso", "cast-date-of-dates", "cast-date-of-datetimes", "cast-datetime-of-dates", "promoted-date-plus-int", "promoted-date-plus-intvec", "promoted-date-minus-timedelta", "promoted-int-abs", "promoted-int-neg",
-	"promoted-int-invert-free", "huge-int-in-float", "huge-int-into-float", "huge-int-in-complex", "peek-non-string-names", "peek-args", "zero-plus-bool", "false-plus-bool", "sum-of-bool-vectors", "zero-plus-numeric-holding-bool", "new-empty", "new-empty-typesafe",
+	"promoted-int-invert-free", "lshift-operand-widened-by-inference", "lshift-operand-bool-then-int", "lshift-operand-date-then-datetime", "lshift-nullable-operand", "table-lshift-table-widened", "huge-int-in-float", "huge-int-into-float", "huge-int-in-complex", "peek-non-string-names", "peek-args", "zero-plus-bool", "false-plus-bool", "sum-of-bool-vectors", "zero-plus-numeric-holding-bool", "new-empty", "new-empty-typesafe",
 	"fillna-same", "fillna-wider", "fillna-none", "fillna-integral-wider", "lshift-vector-none", "lshift-vector-same", "and-int", "or-vector", "xor-list",
 	"new-equal-narrower-first", "agg-stdev", "win-stdev", "dropna", "isna", "unique", "sort", "to_object", "T", "slice", "mask", "pluck", "new", "new-typesafe", "new-none-typesafe", "new-none", "isinstance",
 	"compare", "matmul-table", "table-sum", "table-max", "table-mean"]
